@@ -1,8 +1,8 @@
 package flow
 
 import (
-	"regexp/syntax"
 	"go/token"
+	"regexp/syntax"
 
 	"golang.org/x/tools/go/ssa"
 )
